@@ -20,7 +20,7 @@ RULE = (
 ASSUMPTIONS = ["with cbca only the scalar-nesting relation is claimed (NaN-ed neighbours legitimately change aggregated sums)"]
 GATES = {
     "nested_scalar_pairs": 10, "grid_of_equal_width_intervals": 1, "nested_with_cbca": 2, "grid_vs_hull": 5, "constant_grid_vs_scalar": 3, "point_inner_interval": 1,
-    "end_to_end_pipelines": 10, "interval_excluding_0_with_filling": 2, "interval_excluding_0": 5, "filled_pixels_contained": 1, "costs_compared": 50000, "pixels_contained": 5000,
+    "end_to_end_pipelines": 10, "nested_with_a_confidence_step": 3, "interval_excluding_0_with_filling": 2, "interval_excluding_0": 5, "filled_pixels_contained": 1, "costs_compared": 50000, "pixels_contained": 5000,
 }
 INVALID = 0b1111000011
 
@@ -94,11 +94,19 @@ def run_case(case, ctx):
     if cbca:
         params["aggregation"] = {"aggregation_method": "cbca", "cbca_distance": int(rng.integers(1, 6)),
                                  "cbca_intensity": float(rng.choice([5.0, 30.0]))}
+    # a confidence step after the cost-volume steps (it may read the costs, never change them): the volume is captured after it
+    conf = [None, None, "ambiguity", "risk", "std_intensity"][int(rng.integers(0, 5))]
+    if case["i"] == 1:
+        conf = "ambiguity"
+    if conf:
+        keys.append("cost_volume_confidence")
+        params["cost_volume_confidence"] = {"confidence_method": conf}
+    ctx.gate("nested_with_a_confidence_step", int(bool(conf)))
     pipe = pipes.instantiate(keys, params=params)
     bands = ["r", "g", "b"] if nb == 3 else None
-    after_kind = "aggregation" if cbca else "matching_cost"
+    after_kind = "cost_volume_confidence" if conf else ("aggregation" if cbca else "matching_cost")
     desc = {"method": method, "window": w, "subpix": subpix, "shape": [rows, cols], "outer": [A, B], "inner": [a, b], "cbca": cbca,
-            "relation": relation, "bands": nb, "masks": [lm is not None, rm is not None]}
+            "relation": relation, "bands": nb, "confidence": conf, "masks": [lm is not None, rm is not None]}
 
     def ds(disp, rdisp=None):
         return gen.make_dataset(l, disp, lm, bands=bands), gen.make_dataset(r, rdisp, rm, bands=bands)
